@@ -169,6 +169,84 @@ pub mod time {
     }
 }
 
+/// `std::env`: what a simulated task sees when the crate under test looks at an environment
+/// variable is decided by the simulator - per episode and per variable name either the real
+/// value, "not set", or one of a handful of plausible values - because the environment is an
+/// input the crate's callers do not pass and therefore must not influence results. A variable
+/// the crate has set or removed itself is left alone afterwards. Other threads see the real one.
+pub mod env {
+    pub use rstd::env::*;
+
+    use fqcore::__fqsim::{ctl, TASK_KEY};
+    use rstd::ffi::{OsStr, OsString};
+    use rstd::string::{String, ToString};
+    use rstd::vec::Vec;
+
+    static TOUCHED: rstd::sync::Mutex<Vec<OsString>> = rstd::sync::Mutex::new(Vec::new());
+
+    const VALUES: [&str; 20] = [
+        "1", "0", "", "true", "false", "dumb", "xterm-256color", "C", "POSIX", "en_US.UTF-8", "en_US", "de_DE.ISO-8859-1", "ja_JP.eucJP", "80", "3", "/tmp", "never", "always", "42", "off",
+    ];
+
+    /// `None`: use the real environment; `Some(None)`: not set; `Some(Some(v))`: this value.
+    fn simulated(key: &OsStr) -> Option<Option<String>> {
+        let k = ctl(TASK_KEY, 0);
+        if k == 0 {
+            return None;
+        }
+        if TOUCHED.lock().unwrap_or_else(|e| e.into_inner()).iter().any(|t| t.as_os_str() == key) {
+            return None;
+        }
+        // FNV-1a over the name, mixed with the episode key: stable within an episode
+        let mut h: u64 = 0xcbf29ce484222325 ^ k;
+        for b in key.as_encoded_bytes() {
+            h = (h ^ *b as u64).wrapping_mul(0x100000001b3);
+        }
+        h ^= h >> 29;
+        match h % 10 {
+            0..=2 => None,
+            3..=5 => Some(None),
+            _ => Some(Some(VALUES[((h >> 8) % VALUES.len() as u64) as usize].to_string())),
+        }
+    }
+
+    pub fn var<K: AsRef<OsStr>>(key: K) -> Result<String, VarError> {
+        match simulated(key.as_ref()) {
+            None => rstd::env::var(key),
+            Some(None) => Err(VarError::NotPresent),
+            Some(Some(v)) => Ok(v),
+        }
+    }
+
+    pub fn var_os<K: AsRef<OsStr>>(key: K) -> Option<OsString> {
+        match simulated(key.as_ref()) {
+            None => rstd::env::var_os(key),
+            Some(None) => None,
+            Some(Some(v)) => Some(OsString::from(v)),
+        }
+    }
+
+    fn touch(key: &OsStr) {
+        let mut t = TOUCHED.lock().unwrap_or_else(|e| e.into_inner());
+        if !t.iter().any(|x| x.as_os_str() == key) {
+            t.push(key.to_os_string());
+        }
+    }
+
+    // safe signatures (as before edition 2024) so that callers of either edition compile
+    #[allow(unused_unsafe)]
+    pub fn set_var<K: AsRef<OsStr>, V: AsRef<OsStr>>(key: K, value: V) {
+        touch(key.as_ref());
+        unsafe { rstd::env::set_var(key, value) }
+    }
+
+    #[allow(unused_unsafe)]
+    pub fn remove_var<K: AsRef<OsStr>>(key: K) {
+        touch(key.as_ref());
+        unsafe { rstd::env::remove_var(key) }
+    }
+}
+
 /// `std::thread`: `sleep` runs on the simulated clock, `yield_now` is a scheduling point, and a
 /// thread started by a simulated task becomes a simulated task itself (scheduled by the seeded
 /// scheduler like any caller; `join` is a "blocked" scheduling point, never a kernel wait while
